@@ -2,6 +2,7 @@
 //! verif-sim: deterministic simulation harness for scale-typegen (see /verif/DESIGN.md).
 
 mod c06;
+mod c10;
 mod corpus;
 mod entropy;
 mod model;
@@ -47,6 +48,7 @@ fn main() {
             println!("VERIF_SEED={} tier={} workers={}", ctx.seed, ctx.tier.name(), ctx.workers);
             match prop.as_str() {
                 "C06" => c06::check(&ctx),
+                "C10" => c10::check(&ctx),
                 _ => usage(),
             }
         }
@@ -67,11 +69,36 @@ fn main() {
             }
             match doc["engine"].as_str() {
                 Some("c06") => c06::replay(&doc),
+                Some("c10") => c10::replay(&doc),
                 _ => {
                     eprintln!("HARNESS ERROR: unknown engine in replay file");
                     2
                 }
             }
+        }
+        Some("gen") => {
+            // debugging aid: print the module generated for a corpus entry under standard settings
+            let name = args.get(1).cloned().unwrap_or_else(|| usage());
+            let w = c06::World::build();
+            let e = w
+                .families
+                .iter()
+                .chain(w.dups.iter())
+                .find(|e| e.name == name)
+                .unwrap_or_else(|| {
+                    eprintln!("no corpus entry {name}");
+                    std::process::exit(2)
+                });
+            let mut b = model::Builders::new();
+            for op in model::bit_order_substitutes() {
+                b.apply(&op).unwrap();
+            }
+            let settings = model::Switches::standard().settings(b);
+            match observe::gen_tokens(&e.reg, &settings) {
+                Ok(t) => println!("{t}"),
+                Err(e) => println!("ERROR {e}"),
+            }
+            0
         }
         Some("c06-exec") => {
             let lo: u64 = args.get(1).and_then(|s| s.parse().ok()).unwrap_or_else(|| usage());
